@@ -1,6 +1,7 @@
 package main
 
 import (
+	"strconv"
 	"fmt"
 	"math"
 	"os"
@@ -142,6 +143,16 @@ func (st *state) feedOp(toks []string) string {
 			fb.ops = append(fb.ops, dec)
 			fb.mu.Unlock()
 		})
+		return "ok"
+	case "watchx": // one more watcher (of everything); it only counts what it gets
+		id := in.n.WatchKey([]string{"*"}, func(op patch.Op) {})
+		in.extra = append(in.extra, id)
+		return "ok"
+	case "unwatchx": // unwatchx <k>: remove the k-th additional watcher (1-based); removing it again is harmless
+		k, _ := strconv.Atoi(toks[1])
+		if k >= 1 && k <= len(in.extra) {
+			in.n.UnWatchKey(in.extra[k-1])
+		}
 		return "ok"
 	case "watchp": // a second watcher with its own patterns (C20: a watcher only receives records for keys matching its patterns)
 		in.feedP = &feedBuf{}
